@@ -58,8 +58,13 @@ where
     } = &props;
 
     let rust_name = xml_name_to_rust_name(xml_name);
+    // a type of the same name in another module is a different type
+    let in_other_module = match rust_type {
+        RustFieldType::Other(other) => other.module.as_deref() != target_namespace.as_ref().map(|ns| ns.rust_mod_name.as_str()),
+        _ => false,
+    };
     if let Some(segment) = rust_type.to_string().split(':').next_back() {
-        if segment == rust_name {
+        if segment == rust_name && !in_other_module {
             // NOOP
             return Ok(());
         }
